@@ -24,7 +24,7 @@ func init() {
 }
 
 var c19EncNames = []string{"a", "a.b", "a.b.c", "a[0]", "a[1].b", "b", "", " ", "a b", "a,b", "a\tb", "1", "a..b", ".a", "a.", "日本"}
-var c19EncValues = []string{"NULL", "1", "-1.5", "''", "'x'", "'a,b'", "'a\"b'", "'a\nb'", "'\t'", "TRUE", "DATETIME('2012-02-03 04:05:06')", "'" + strings.Repeat("w", 300) + "'", "'日本語'"}
+var c19EncValues = []string{"NULL", "1", "-1.5", "''", "'x'", "'a,b'", "'a\"b'", "'a\nb'", "'abc\r'", "'a\rb'", "'a\r\nb\r\n'", "'\r'", "'\n'", "'\t'", "TRUE", "DATETIME('2012-02-03 04:05:06')", "'" + strings.Repeat("w", 300) + "'", "'日本語'"}
 
 type c19EncOpt struct {
 	name string
